@@ -86,7 +86,7 @@ fn adjust_plans(s: &mut Scenario, variant: usize, at: usize, removed: usize) {
             let mut i = 0;
             while i < plan.steps.len() {
                 match plan.steps[i] {
-                    ReadStep::Data(n) | ReadStep::Scribble(n) => {
+                    ReadStep::Data(n) | ReadStep::Scribble(n) | ReadStep::Reenter(n) => {
                         let (lo, hi) = (pos, pos + n as usize);
                         let ov = hi.min(at + removed).saturating_sub(lo.max(at));
                         pos = hi;
@@ -98,6 +98,7 @@ fn adjust_plans(s: &mut Scenario, variant: usize, at: usize, removed: usize) {
                             }
                             plan.steps[i] = match plan.steps[i] {
                                 ReadStep::Scribble(_) => ReadStep::Scribble(left as u32),
+                                ReadStep::Reenter(_) => ReadStep::Reenter(left as u32),
                                 _ => ReadStep::Data(left as u32),
                             };
                         }
@@ -286,7 +287,7 @@ pub fn minimise(scen: &Scenario, v: &Violation, budget: Duration) -> (Scenario, 
                 });
                 try_apply(&mut cx, &mut cur, |s| {
                     for st in s.threads[t].ops[i].plan_mut().unwrap().steps.iter_mut() {
-                        if let ReadStep::Scribble(n) = *st {
+                        if let ReadStep::Scribble(n) | ReadStep::Reenter(n) = *st {
                             *st = ReadStep::Data(n);
                         }
                     }
@@ -304,7 +305,7 @@ pub fn minimise(scen: &Scenario, v: &Violation, budget: Duration) -> (Scenario, 
                             let total: u64 = steps[j..end]
                                 .iter()
                                 .map(|st| match st {
-                                    ReadStep::Data(n) | ReadStep::Scribble(n) => *n as u64,
+                                    ReadStep::Data(n) | ReadStep::Scribble(n) | ReadStep::Reenter(n) => *n as u64,
                                     ReadStep::Full => 4096,
                                     ReadStep::Eintr => 0,
                                 })
